@@ -175,6 +175,17 @@ Proof.
   intros pn fl m r Hr. unfold cat_res. apply ok_bind; [exact Hr|]. intros l rest Hrest. exact Hrest.
 Qed.
 
+(* no dynamic value anywhere in the type ("o" is allowed: its structure holds no "m") *)
+Fixpoint plain_m (t : ty) : bool :=
+  match t with
+  | TS SValue => false
+  | TS _ => true
+  | TList t' => plain_m t'
+  | TMap k v => plain_m k && plain_m v
+  | TTuple ts => forallb plain_m ts
+  | TStruct _ fs => forallb (fun f => plain_m (snd f)) fs
+  end.
+
 (* ---------- the three codec bodies, with abstract handlers ---------- *)
 Lemma no_dyn_safe : forall {A} pn fl n, safe pn fl n (@no_dyn A).
 Proof. intros A pn fl n bs Hbs. unfold no_dyn. cbn [outcome_ok]. lia. Qed.
@@ -238,32 +249,51 @@ Section Bodies.
 
   Section Spec.
     Variable dyn obj : bytes -> res (tval * bytes).
-    Hypothesis Hdyn : safe pn fl n dyn.
     Hypothesis Hobj : safe pn fl n obj.
 
-    Lemma spec_body_safe : forall t, safe pn fl n (spec_body dyn obj t).
+    (* the "m" handler only matters for types that hold an "m" *)
+    Lemma spec_body_safe_gen : forall t,
+      plain_m t = true \/ safe pn fl n dyn -> safe pn fl n (spec_body dyn obj t).
     Proof.
-      induction t as [s|t' IH|tk tv IHk IHv|ts IH|nm fs IH] using ty_ind2.
+      induction t as [s|t' IH|tk tv IHk IHv|ts IH|nm fs IH] using ty_ind2; intro Hd.
       - destruct s; cbn [spec_body scalar_width];
-          try apply num_safe; try exact Hdyn; try exact Hobj; try apply here_safe; try apply err_safe.
-        intros bs Hbs. apply ok_bind; [apply read_str_ok_len|]. intros x r Hr. exact Hr.
-      - intros bs Hbs. cbn [spec_body]. apply ok_bind; [apply read_num_ok_len|].
+          try apply num_safe; try exact Hobj; try apply here_safe; try apply err_safe.
+        + intros bs Hbs. apply ok_bind; [apply read_str_ok_len|]. intros x r Hr. exact Hr.
+        + destruct Hd as [Hd|Hd]; [discriminate Hd|exact Hd].
+      - cbn [plain_m] in Hd. specialize (IH Hd).
+        intros bs Hbs. cbn [spec_body]. apply ok_bind; [apply read_num_ok_len|].
         intros k r Hr. cbv beta iota. apply ok_bind.
         + apply (outcome_ok_le pn fl (List.length r)); [exact Hr|].
           refine (rep_safe pn fl n _ k IH r _). lia.
         + intros d r' Hr'. exact Hr'.
-      - intros bs Hbs. cbn [spec_body]. apply ok_bind; [apply read_num_ok_len|].
+      - assert (Hk : plain_m tk = true \/ safe pn fl n dyn).
+        { destruct Hd as [Hd|Hd]; [|right; exact Hd].
+          cbn [plain_m] in Hd. apply andb_true_iff in Hd as [Hd _]. left; exact Hd. }
+        assert (Hv : plain_m tv = true \/ safe pn fl n dyn).
+        { destruct Hd as [Hd|Hd]; [|right; exact Hd].
+          cbn [plain_m] in Hd. apply andb_true_iff in Hd as [_ Hd]. left; exact Hd. }
+        specialize (IHk Hk). specialize (IHv Hv).
+        intros bs Hbs. cbn [spec_body]. apply ok_bind; [apply read_num_ok_len|].
         intros k r Hr. cbv beta iota. apply ok_bind.
         + apply (outcome_ok_le pn fl (List.length r)); [exact Hr|].
           refine (rep_safe pn fl n _ k _ r _); [|lia]. apply pair_with_safe; assumption.
         + intros d r' Hr'. exact Hr'.
       - intros bs Hbs. cbn [spec_body]. apply ok_bind.
-        + refine (seq_with_safe pn fl n _ _ bs Hbs). apply Forall_map. exact IH.
+        + refine (seq_with_safe pn fl n _ _ bs Hbs). apply Forall_map.
+          apply Forall_forall. intros t Hin. rewrite Forall_forall in IH. apply (IH t Hin).
+          destruct Hd as [Hd|Hd]; [|right; exact Hd].
+          left. cbn [plain_m] in Hd. exact (proj1 (forallb_forall _ _) Hd t Hin).
         + intros d r' Hr'. exact Hr'.
       - intros bs Hbs. cbn [spec_body]. apply ok_bind.
-        + refine (seq_with_safe pn fl n _ _ bs Hbs). apply Forall_map. exact IH.
+        + refine (seq_with_safe pn fl n _ _ bs Hbs). apply Forall_map.
+          apply Forall_forall. intros fd Hin. rewrite Forall_forall in IH. apply (IH fd Hin).
+          destruct Hd as [Hd|Hd]; [|right; exact Hd].
+          left. cbn [plain_m] in Hd. exact (proj1 (forallb_forall _ _) Hd fd Hin).
         + intros d r' Hr'. exact Hr'.
     Qed.
+
+    Lemma spec_body_safe : safe pn fl n dyn -> forall t, safe pn fl n (spec_body dyn obj t).
+    Proof. intros Hdyn t. apply spec_body_safe_gen. right; exact Hdyn. Qed.
   End Spec.
 End Bodies.
 
@@ -334,3 +364,119 @@ Section Refl.
     intro t. unfold refl_dec. apply refl_body_safe. apply refl_body_safe. apply no_dyn_safe.
   Qed.
 End Refl.
+
+(* ---------- the fuelled decoders ---------- *)
+Section Fuelled.
+  Variable parse : string -> option ty.
+  Variable c : wcfg.
+
+  Lemma spec_obj_safe : forall pn fl n, safe pn fl n spec_obj.
+  Proof. intros pn fl n. unfold spec_obj. apply spec_body_safe; apply no_dyn_safe. Qed.
+
+  Lemma sig_obj_safe : forall pn fl n, safe pn fl n (sig_obj c).
+  Proof. intros pn fl n. unfold sig_obj. apply sig_body_safe; apply no_dyn_safe. Qed.
+
+  (* never a panic; never out of fuel on inputs shorter than the fuel: each level of dynamic
+     value takes the four bytes of its signature length before it recurses *)
+  Lemma spec_dec_safe : forall fl fuel n t,
+    (fl = false -> n < fuel) -> safe false fl n (spec_dec parse fuel t).
+  Proof.
+    intros fl fuel. induction fuel as [|f IH]; intros n t Hf; rewrite spec_dec_unfold;
+      apply spec_body_safe; try apply spec_obj_safe.
+    - intros bs Hbs. cbn [spec_dyn]. unfold out_of_fuel. cbn [outcome_ok].
+      destruct fl; [reflexivity|]. specialize (Hf eq_refl). lia.
+    - intros bs Hbs. cbn [spec_dyn].
+      pose proof (read_str_ok_len false fl bs) as Hs.
+      destruct (read_str bs) as [[sg r]|l| |] eqn:Hrs; cbn [bind outcome_ok] in Hs |- *; try exact Hs.
+      apply read_str_inv in Hrs.
+      destruct (parse (string_of_bytes sg)) as [t'|]; [|cbn [outcome_ok]; lia].
+      apply ok_bind.
+      + apply (outcome_ok_le false fl (List.length r)); [lia|].
+        apply (IH (List.length r) t'); [|lia]. intro Hfl. specialize (Hf Hfl). lia.
+      + intros v r' Hr'. exact Hr'.
+  Qed.
+
+  Lemma sig_read_safe : forall fl fuel n t,
+    (fl = false -> n < fuel) -> safe false fl n (sig_read parse c fuel t).
+  Proof.
+    intros fl fuel. induction fuel as [|f IH]; intros n t Hf; rewrite sig_read_unfold;
+      apply sig_body_safe; try apply sig_obj_safe.
+    - intros bs Hbs. cbn [sig_dyn]. unfold out_of_fuel. cbn [outcome_ok].
+      destruct fl; [reflexivity|]. specialize (Hf eq_refl). lia.
+    - intros bs Hbs. cbn [sig_dyn].
+      pose proof (read_str_ok_len false fl bs) as Hs.
+      destruct (read_str bs) as [[sg r]|l| |] eqn:Hrs; cbn [bind outcome_ok] in Hs |- *; try exact Hs.
+      apply read_str_inv in Hrs.
+      destruct (parse (string_of_bytes sg)) as [t'|]; [|cbn [outcome_ok]; lia].
+      apply ok_bind.
+      + apply (outcome_ok_le false fl (List.length r)); [lia|].
+        apply (IH (List.length r) t'); [|lia]. intro Hfl. specialize (Hf Hfl). lia.
+      + intros v r' Hr'. exact Hr'.
+  Qed.
+End Fuelled.
+
+Section Values.
+  Variable parse : string -> option ty.
+  Variable c : wcfg.
+
+  Lemma ok_after : forall {A B} pn fl m (r : bytes) (p : bytes -> res (A * bytes)) (f : A * bytes -> res (B * bytes)),
+    List.length r <= m -> outcome_ok pn fl (List.length r) (p r) ->
+    (forall a r', List.length r' <= List.length r -> outcome_ok pn fl m (f (a, r'))) ->
+    outcome_ok pn fl m (bind (p r) f).
+  Proof.
+    intros A B pn fl m r p f Hr Hp Hf.
+    destruct (p r) as [[a r']|l| |]; cbn [bind outcome_ok] in Hp |- *; try lia; try exact Hp.
+    apply Hf. exact Hp.
+  Qed.
+
+  Lemma dec_dval_safe : forall fl fuel n,
+    (fl = false -> n < fuel) -> safe false fl n (dec_dval parse c fuel).
+  Proof.
+    intros fl fuel. induction fuel as [|f IH]; intros n Hf bs Hbs.
+    - cbn [dec_dval outcome_ok]. destruct fl; [reflexivity|]. specialize (Hf eq_refl). lia.
+    - cbn [dec_dval].
+      pose proof (read_str_ok_len false fl bs) as Hs.
+      destruct (read_str bs) as [[sg r]|l| |] eqn:Hrs; cbn [bind outcome_ok] in Hs |- *; try exact Hs.
+      apply read_str_inv in Hrs.
+      assert (Hrec : forall r' : bytes, List.length r' <= List.length r -> safe false fl (List.length r') (dec_dval parse c f)).
+      { intros r' Hr'. apply IH. intro Hfl. specialize (Hf Hfl). lia. }
+      destruct (lookup (string_of_bytes sg) dispatch_table) as [k| | | | | |].
+      + destruct k;
+          (apply ok_after; [lia|apply read_num_ok_len|]); intros x r' Hr'; cbn [outcome_ok]; lia.
+      + apply ok_after; [lia|apply read_str_ok_len|]. intros x r' Hr'. cbn [outcome_ok]. lia.
+      + apply ok_after; [lia|apply read_num_ok_len|]. intros k r' Hr'. cbv beta iota.
+        destruct (listValueMaxSize <? k)%N; [cbn [outcome_ok]; lia|].
+        apply ok_after; [lia| |].
+        * refine (rep_safe false fl (List.length r') _ k (Hrec r' Hr') r' _). lia.
+        * intros l r'' Hr''. cbn [outcome_ok]. lia.
+      + apply ok_after; [lia|apply read_num_ok_len|]. intros k r' Hr'. cbv beta iota.
+        destruct (rawValueMaxSize <? k)%N; [cbn [outcome_ok]; lia|].
+        apply ok_after; [lia|apply take_n_ok_len|].
+        intros b r'' Hr''. cbn [outcome_ok]. lia.
+      + cbn [outcome_ok]. lia.
+      + apply (outcome_ok_le false fl (List.length r)); [lia|].
+        apply (Hrec r (le_n _)). lia.
+      + cbv zeta.
+        destruct (parse _) as [t|]; [|cbn [outcome_ok]; lia].
+        apply ok_after; [lia| |].
+        * apply (sig_read_safe parse c fl (S (List.length r)) (List.length r) t); lia.
+        * intros d r' Hr'. cbn [outcome_ok]. lia.
+  Qed.
+
+  Lemma new_value_safe : forall n, safe false false n (new_value parse c).
+  Proof.
+    intros n bs Hbs. unfold new_value.
+    apply (dec_dval_safe false (S (List.length bs)) (List.length bs)); lia.
+  Qed.
+
+  Lemma dec_capmap_safe : forall n, safe false false n (dec_capmap parse c).
+  Proof.
+    intros n bs Hbs. unfold dec_capmap.
+    apply ok_bind; [apply read_num_ok_len|]. intros k r Hr. cbv beta iota.
+    destruct (capabilityMapSizeMax <? k)%N; [exact Hr|].
+    apply (outcome_ok_le false false (List.length r)); [exact Hr|].
+    refine (rep_safe false false (List.length r) _ k _ r _); [|lia].
+    apply pair_with_safe; [|apply new_value_safe].
+    intros b Hb. apply read_str_ok_len.
+  Qed.
+End Values.
